@@ -464,10 +464,21 @@ fn run_iter<T: Sub>(v: &T, rev: bool, calls: &str) -> String
 where
     for<'a> &'a T: IntoIterator<Item = Bit, IntoIter = bva::BitIterator<'a, T>>,
 {
-    fn drive<I: DoubleEndedIterator<Item = Bit>>(mut it: I, calls: &str) -> String {
+    /// `mode` selects how the consuming calls are made: 0 = the methods themselves (`count`, `last`, `size_hint`),
+    /// 1 = through `fold`, 2 = through `for_each`, 3 = through `rev().rev()` (which routes `count`/`last` through `rfold`/`fold`).
+    /// Returns the output and the number of bits left as seen by that mode's consumer.
+    fn drive<I: DoubleEndedIterator<Item = Bit>>(mut it: I, calls: &str, mode: u8) -> (String, usize) {
+        fn rest<I: DoubleEndedIterator<Item = Bit>>(it: I, mode: u8) -> (usize, Option<Bit>) {
+            match mode {
+                0 => { let n = it.size_hint().0; (n, it.last()) }
+                1 => it.fold((0, None), |(n, _), b| (n + 1, Some(b))),
+                2 => { let mut r = (0, None); it.for_each(|b| r = (r.0 + 1, Some(b))); r }
+                _ => { let mut r = it.rev().rev(); let mut n = 0; let mut l = None; while let Some(b) = r.next() { n += 1; l = Some(b); } (n, l) }
+            }
+        }
         let mut out = String::from("ok");
         if calls == "-" {
-            return out;
+            return (out, rest(it, mode).0);
         }
         let list: Vec<&str> = calls.split(',').collect();
         let mut i = 0;
@@ -485,14 +496,16 @@ where
             } else if c == "count" {
                 // consuming: must be last
                 assert_eq!(i, list.len());
+                let n = match mode { 0 => it.count(), 3 => it.rev().rev().count(), m => rest(it, m).0 };
                 out.push(' ');
-                out.push_str(&format!("n:{}", it.count()));
-                return out;
+                out.push_str(&format!("n:{}", n));
+                return (out, 0);
             } else if c == "last" {
                 assert_eq!(i, list.len());
+                let l = match mode { 0 => it.last(), 3 => it.rev().rev().last(), m => rest(it, m).1 };
                 out.push(' ');
-                out.push_str(tok_obit(it.last()));
-                return out;
+                out.push_str(tok_obit(l));
+                return (out, 0);
             } else if let Some(n) = c.strip_prefix("nth:") {
                 tok_obit(it.nth(n.parse().unwrap())).into()
             } else if let Some(n) = c.strip_prefix("nthb:") {
@@ -503,16 +516,28 @@ where
             out.push(' ');
             out.push_str(&t);
         }
-        out
+        let left = rest(it, mode).0;
+        (out, left)
     }
     // `iter()` and `IntoIterator for &T` must be the same thing: alternate between them
-    if rev {
-        drive(v.iter().rev(), calls)
-    } else if calls.len() % 2 == 0 {
-        drive(v.iter(), calls)
-    } else {
-        drive(v.into_iter(), calls)
+    let go = |mode: u8| -> (String, usize) {
+        if rev {
+            drive(v.iter().rev(), calls, mode)
+        } else if calls.len() % 2 == 0 {
+            drive(v.iter(), calls, mode)
+        } else {
+            drive(v.into_iter(), calls, mode)
+        }
+    };
+    let base = go(0);
+    for mode in 1..=3u8 {
+        let other = go(mode);
+        if other != base {
+            // the consumers built on `fold` / `for_each` / `rev().rev()` disagree with the methods themselves: report what they saw
+            return format!("{} n:{}", other.0, other.1);
+        }
     }
+    base.0
 }
 
 // ---- operations with a generic `B: BitVector` argument ----------------------------------------------
